@@ -59,7 +59,9 @@ class RecordingCriteria:
                 "numbers": atoms.numbers.copy(),
             }
         )
-        return self.inner.evaluate(context, *a, **k)
+        r = self.inner.evaluate(context, *a, **k)
+        self.sink[-1]["result"] = bool(r)
+        return r
 
     def to_dict(self):
         return self.inner.to_dict()
@@ -140,6 +142,7 @@ def execute(spec: dict, chooser: Chooser, depth: int, policy: Policy | None = No
                 break
         err = {"type": type(e).__name__, "msg": str(e)[:200], "where": where, "qwhere": qwhere}
         if cur is not None:
+            cur.at_criteria = sink[-1] if sink else None
             cur.error = err
             cur.verdict = "error"
             try:
